@@ -272,6 +272,7 @@ def _int_valued(e):
     mut.replace_expr('transactions', 'Transaction.add_output', 'float(value).is_integer()', 'round(float(value), 6).is_integer()', 'integrality test tolerant to float noise, truncation unchanged'),
     mut.replace_expr('values', 'value_to_satoshi', 'value.is_integer()', 'True', 'fractional numeric amounts accepted'),
     mut.drop_stmt('transactions', 'Transaction.raw', 'if o.value < 0', 'negative output values serialised'),
+    mut.drop_stmt('transactions', 'Transaction.add_output', 'if isinstance(value, Value)', 'Value objects stored as whole coins'),
 ])
 def integer_amounts(ctx):
     """(a) value_to_satoshi, the conversion used by Input / Output: on every return path the result is an integer: value_sat of a Value, or a
@@ -339,6 +340,24 @@ def integer_amounts(ctx):
         tn = [n for n in g.nodes if n.ast is not None and any(sub is truncs[0] for f in [n.ast] for sub in ast.walk(f)) and n.kind in ('stmt', 'return')]
         if tn:
             ctx.require(tn[0].id not in g.reach([g.entry], blocked_nodes=tests), q, 'int(value) is reachable without passing the integrality test', truncs[0])
+    # a Value object is an amount in COINS for float() / int(): it is converted with value_sat (or value_to_satoshi) before the numeric
+    # test and the truncation - on every path (Output() converts Value objects itself; add_output is its wrapper)
+    conv = [n for n in g.nodes if n.kind == 'stmt' and isinstance(n.ast, ast.Assign) and norm(n.ast.targets[0]) == 'value' and
+            (norm(n.ast.value) == 'value.value_sat' or norm(n.ast.value).startswith('value_to_satoshi(value'))]
+    vtests = [n for n in g.nodes if n.kind == 'test' and norm(n.ast) in ('isinstance(value, Value)',)]
+    ctx.saw('add_output: Value objects converted by %s' % [norm(n.ast) for n in conv])
+    if not conv:
+        ctx.violate(q, 'a Value object passed as amount is never converted to its smallest units: float(value) / int(value) of a Value are whole coins', fn,
+                    "add_output(Value('2 BTC'), address) creates an output of 2 satoshi")
+    elif truncs:
+        tn2 = [n for n in g.nodes if n.ast is not None and n.kind in ('stmt', 'return') and any(sub is truncs[0] for sub in ast.walk(n.ast))]
+        unconditional = any(norm(n.ast.value).startswith('value_to_satoshi(') for n in conv)
+        if tn2 and not unconditional:
+            # with the isinstance test true, the truncation is only reachable through the conversion
+            off = set(e for t_ in vtests for e in g.false_edge(t_.id))
+            seen = g.reach([g.entry], blocked_nodes=[n.id for n in conv], blocked_edges=off)
+            ctx.require(bool(vtests) and tn2[0].id not in seen, q, 'int(value) is reachable for a Value object without the conversion to smallest units', truncs[0],
+                        "add_output(Value('2 BTC'), address) creates an output of 2 satoshi")
     # (c)
     q = 'transactions:Transaction.raw'
     fn = ctx.repo.func(q)
@@ -514,6 +533,15 @@ def provider_rounding(ctx):
                     continue
                 a = c.args[0]
                 has_float = any(isinstance(x, ast.Call) and norm(x.func) == 'float' for x in ast.walk(a))
+                if not has_float:
+                    # a local that holds a float (assigned / accumulated from float(...) or a float literal in this function)
+                    names = set(x.id for x in ast.walk(a) if isinstance(x, ast.Name))
+                    for s_ in ast.walk(fn):
+                        if isinstance(s_, (ast.Assign, ast.AugAssign)):
+                            t_ = s_.targets[0] if isinstance(s_, ast.Assign) else s_.target
+                            if isinstance(t_, ast.Name) and t_.id in names and any(
+                                    (isinstance(x, ast.Call) and norm(x.func) == 'float') or (isinstance(x, ast.Constant) and isinstance(x.value, float)) for x in ast.walk(s_.value)):
+                                has_float = True
                 arith = any(isinstance(x, ast.BinOp) and isinstance(x.op, (ast.Mult, ast.Div)) for x in ast.walk(a))
                 if not (has_float and arith):
                     continue
